@@ -62,7 +62,7 @@ LEVEL_NOTE = ("Trusted: Coq kernel, extraction, the two abstractions (live objec
               "members for Griffe, by design: test_name_resolution), walrus targets, `nonlocal` beyond the spec side, star imports (C05), "
               "inherited members in attribute chains (C07), alias resolution of the returned first-link path (C06; the direct check lets CPython "
               "evaluate the path). While /repo lacks the three fix commits the check runs the as-is form of the model and lists F1/F3/F4 as "
-              "known; on the fix clone it runs the repaired form and their witnesses must give CPython's answers. All 31 theorems are closed "
+              "known; on the fix clone it runs the repaired form and their witnesses must give CPython's answers. All 32 theorems are closed "
               "under the global context.")
 MODEL = ("Model.C04_expr", "run_C04e")
 COQ_TARGETS = ["Proofs/C04_scope.vo", "Proofs/C04_expr.vo"]
@@ -617,13 +617,18 @@ class Gen:
             return f"(lambda {', '.join(parts)}: {body})" if parts else f"(lambda: {body})"
         # comprehension
         ngen = rng.choice([1, 1, 1, 2])
-        tgs = []
+        tgs, shapes = [], []
         for _ in range(ngen):
-            tgs.append(rng.sample(binders, rng.choice([1, 1, 2])))
+            # target shapes: a | (a, b) | (a, *b) | (*a, b) | [a, *b] | (a, (*b, c)) | [a, [b, *c]] | (a, [*b, c])
+            shape = rng.choice(["{0}", "{0}", "({0}, {1})", "({0}, {1})", "({0}, *{1})", "(*{0}, {1})", "[{0}, *{1}]", "[{0}, {1}]",
+                                "({0}, (*{1}, {2}))", "[{0}, [{1}, *{2}]]", "({0}, [*{1}, {2}])", "(({0}, {1}), *{2})"])
+            k = 1 + max(int(c) for c in shape if c.isdigit())
+            tgs.append(rng.sample(binders, k))
+            shapes.append(shape)
         inner = tuple(locs) + tuple(t for tg in tgs for t in tg)
         clauses = []
         for i, tg in enumerate(tgs):
-            t = tg[0] if len(tg) == 1 else "(" + ", ".join(tg) + ")"
+            t = shapes[i].format(*tg)
             it = sub(locs) if i == 0 else sub(inner)       # only the first iterable is evaluated outside
             cl = f"for {t} in {it}"
             if rng.random() < 0.35:
@@ -914,10 +919,7 @@ def xlive(e, occ):
             elt = xlive(e.element, occ)
         gens = []
         for g in e.generators:
-            tn = []
-            xlive(g.target, tn)
-            occ.extend(tn)
-            gens.append([[t.name for t in tn], xlive(g.iterable, occ), _fold([xlive(c, occ) for c in g.conditions])])
+            gens.append([tlive(g.target, occ), xlive(g.iterable, occ), _fold([xlive(c, occ) for c in g.conditions])])
         return ["k", elt, gens]
     if isinstance(e, griffe.Expr):
         kids = []
@@ -929,6 +931,37 @@ def xlive(e, occ):
     if isinstance(e, (list, tuple)):
         return _fold([xlive(x, occ) for x in e])
     return ["c"]
+
+
+def _tfold(ts):
+    out = ["e"]
+    for t in reversed(ts):
+        out = ["p", t, out]
+    return out
+
+
+def tlive(e, occ):
+    """The target of a `for` clause as Griffe stores it -> the model's target (names, starred, tuples / lists folded to pairs)."""
+    import griffe
+    if isinstance(e, griffe.ExprName):
+        occ.append(e)
+        return ["n", e.name]
+    if isinstance(e, griffe.ExprVarPositional):
+        return ["*", tlive(e.value, occ)]
+    if isinstance(e, (griffe.ExprTuple, griffe.ExprList)):
+        return _tfold([tlive(x, occ) for x in e.elements])
+    return ["e"]
+
+
+def tsrc(node, occ):
+    if isinstance(node, ast.Name):
+        occ.append(node)
+        return ["n", node.id]
+    if isinstance(node, ast.Starred):
+        return ["*", tsrc(node.value, occ)]
+    if isinstance(node, (ast.Tuple, ast.List)):
+        return _tfold([tsrc(x, occ) for x in node.elts])
+    return ["e"]
 
 
 def xsrc(node, occ, ann=False):
@@ -961,10 +994,7 @@ def xsrc(node, occ, ann=False):
             elt = xsrc(node.elt, occ)
         gens = []
         for g in node.generators:
-            tn = []
-            xsrc(g.target, tn)
-            occ.extend(tn)
-            gens.append([[t.id for t in tn], xsrc(g.iter, occ), _fold([xsrc(c, occ) for c in g.ifs])])
+            gens.append([tsrc(g.target, occ), xsrc(g.iter, occ), _fold([xsrc(c, occ) for c in g.ifs])])
         return ["k", elt, gens]
     if isinstance(node, ast.IfExp):          # ExprIfExp's field order: body, test, orelse
         return _fold([xsrc(node.body, occ), xsrc(node.test, occ), xsrc(node.orelse, occ)])
